@@ -41,7 +41,8 @@ from . import valid_corr as VC
 def _flag_get(V) -> bool:
     """the validation switch as the field setters see it (a ContextVar today; any object with `get()` after a rewrite)"""
     try:
-        return bool(V._VALIDATION_ENABLED.get())
+        from . import priv as PV       # the switch object is found (not named); else the flag is measured
+        return PV.validation_in_force(V)
     except Exception:  # noqa: BLE001
         return True
 
@@ -49,7 +50,8 @@ def _flag_get(V) -> bool:
 def _flag_force_on(V):
     """start a case with validation on, whatever an earlier case left behind (best effort: only a ContextVar can be set)"""
     try:
-        V._VALIDATION_ENABLED.set(True)
+        from . import priv as PV
+        PV.validation_switch(V).set(True)
     except Exception:  # noqa: BLE001
         pass
 
